@@ -323,7 +323,7 @@ def classify(inp, obs, msg):
     return None
 
 
-BAD_COUNTS = ["0", "-1", "x", "", "1.5", "0x2", "1e1", "²"]
+BAD_COUNTS = ["0", "-1", "x", "", "1.5", "0x2", "1e1", "²", "16777217", "99999999999999999999", "-99999999999999999999"]
 ODD_COUNTS = [" 2 ", "+2", "02", "1_0", "٢"]
 
 
